@@ -100,6 +100,9 @@ request_module(InterrogateModuleDef *def) {
  */
 bool InterrogateDatabase::
 get_error_flag() {
+  // Databases are read only when they are first needed.  Do that now, or we
+  // would report that everything is ok with files nobody has looked at yet.
+  check_latest();
   return _error_flag;
 }
 
